@@ -137,7 +137,7 @@ def sweep_plan(tier):
         if tier == "quick":
             # token-boundary stratum, one case per content for both byte kinds
             cases.append({"content": cid, "lexer": lexer, "kind": "torn_prefix", "mode": "boundaries", "cap": 160})
-            if cid.split(".", 1)[1] in ("multi2", "nested", "strings", "mlhdr", "half", "unbal", "arrowparam", "arrowmix", "arrowcall", "async", "cont", "contdef", "record", "ns", "prop", "macro", "twins", "uni"):
+            if cid.split(".", 1)[1] in ("multi2", "nested", "strings", "mlhdr", "half", "unbal", "arrowparam", "arrowmix", "arrowcall", "async", "cont", "contdef", "record", "ns", "prop", "macro", "twins", "uni", "nestone", "iface"):
                 cases.append({"content": cid, "lexer": lexer, "kind": "lost_head", "mode": "boundaries", "cap": 160})
                 cases.append({"content": cid, "lexer": lexer, "kind": "lost_line"})
                 cases.append({"content": cid, "lexer": lexer, "kind": "swap_lines"})
@@ -206,7 +206,8 @@ def gen_world(i, R, rng, sw):
     if is_heavy:
         cid = rng.choice(heavy)          # ~1000 nested function definitions: seconds per analysis
     d = rng.choice(["", "src", "lib/in/ner", "src/deep"])
-    target = (d + "/" if d else "") + "victim" + EXT[lang]
+    stem = "victim" if rng.random() < 0.85 else rng.choice(("vic tim", "victim\udce9", "vi\u0301ctim", "-victim", "files"))
+    target = (d + "/" if d else "") + stem + EXT[lang]
     if target in neighbours:
         target = "victim2" + EXT[lang]
     ops.append({"op": "write", "path": target, "content": cid})
